@@ -510,6 +510,9 @@ func (p *Path) newTimerChan(label string) *Chan {
 	mode := p.timers["default"]
 	fire := false
 	switch mode {
+	case 3: // the next timer fires, later ones do not
+		fire = true
+		p.timers["default"] = 0
 	case 1:
 		fire = true
 	case 2:
